@@ -279,10 +279,10 @@ class BaseVersion(object):
         # "0:1.0-0"), so hash a normalised form of the comparison key rather
         # than the spelling.
         def norm(part):
-            # type: (Optional[str]) -> Tuple[Tuple[str, int], ...]
-            key = [(s, int(d or "0"))
+            # type: (Optional[str]) -> Tuple[Tuple[str, str], ...]
+            key = [(s, d.lstrip("0"))
                    for (s, d) in re.findall(r"([^0-9]*)([0-9]*)", part or "")]
-            while key and key[-1] == ("", 0):
+            while key and key[-1] == ("", ""):
                 key.pop()
             return tuple(key)
         return hash((int(self.epoch or "0"), norm(self.upstream_version),
@@ -388,8 +388,12 @@ class NativeVersion(BaseVersion):
             if lb:
                 b = lb.pop(0)
             if cls.re_digits.match(a) and cls.re_digits.match(b):
-                aval = int(a)
-                bval = int(b)
+                # numbers of any length: no int(), whose str conversion
+                # is limited to 4300 digits since Python 3.11
+                a = a.lstrip("0")
+                b = b.lstrip("0")
+                aval = (len(a), a)
+                bval = (len(b), b)
                 if aval < bval:
                     return -1
                 if aval > bval:
